@@ -1,15 +1,22 @@
 CONFIG = dict(
     coqfiles=["Props/C16.v"],
-    n_quick=16000, n_thorough=600000, workers_quick=8,
-    rule="object of 0-24 bytes under one of the 8 digest functions (12% with a digest whose size or hash is wrong); original buffer and 0-3 replacement buffers, each "
-         "carrying the object (12%: truncated / extended / one byte changed / unrelated) cut into <= 8 chunks incl. empty chunks, an I/O error at a random event position "
-         "in every buffer but the last; buffer kinds: CAS chunk-reader buffer, CAS reader buffer (EOF attached to data or on its own call), validated byte slice, error buffer; "
-         "handler script: replacements, 8% an error answer, too few / superfluous answers; every method (ToByteSlice, IntoWriter, ReadAt, ToChunkReader, ToReader, CloneCopy, Discard) "
-         "with the offsets / chunk sizes / read sizes of C09; non-trivial = OnError was called at least once; distinct = distinct input",
+    n_quick=12000, n_thorough=600000, workers_quick=8,
+    rule="object of 0-24 bytes under one of the 8 digest functions (12% with a digest whose size or hash is wrong); a STACK of 1-3 WithErrorHandler decorators (35% depth >= 2) "
+         "over an original buffer and 0-3 replacement buffers, each carrying the object (12%: truncated / extended / one byte changed / unrelated) cut into <= 8 chunks incl. empty chunks, "
+         "an I/O error at a random event position in every buffer but the last; buffer kinds: CAS chunk-reader buffer, CAS reader buffer (EOF attached to data or on its own call), "
+         "validated byte slice, error buffer; handler scripts per level: the k-th failure is repaired by a level at or above the level that repaired the previous one, the active levels below it "
+         "answer with errors (the inner handler's error is the outer handler's input); unrecoverable failures (EVERY handler of the stack answers with an error or has no answer left) "
+         "in 40% of the stacked and 10% of the single-handler cases with a failure, at a random failure; too few / superfluous answers at a random level; "
+         "every method (ToByteSlice, IntoWriter, ReadAt, ToChunkReader, ToReader, CloneCopy, Discard) with the offsets / chunk sizes / read sizes of C09, the streaming ones "
+         "(IntoWriter, ToChunkReader, ToReader) in ~70% of the stacked cases; observed per level: OnError argument codes and Done count; per scripted source (original and every "
+         "replacement created, creation order): Close() count; non-trivial = OnError was called at least once at some level; distinct = distinct input",
     modelled=["as C09 (hash function = table of Go-computed hashes, Go io helpers modelled by hand, fuel)",
-              "the ErrorHandler is a scripted oracle (list of answers); a handler asked more often than scripted answers with ABORTED",
+              "every ErrorHandler is a scripted oracle (list of answers); a handler asked more often than scripted answers with ABORTED",
+              "stacks are modelled flattened (run_stack): one plain reader below the active levels, which all hold the same delivered offset; finished levels have received Done; "
+              "a stack of one handler is additionally compared with the older model of the single handler (run_case), the subject of the stitching theorems",
+              "replacement buffers are plain buffers: casErrorHandlingBuffers (or other decorated buffers) returned BY a handler as replacement are not modelled",
               "validated byte slices handed to WithErrorHandler/returned by OnError are trusted by the code; the monitor's validity clauses apply when they hold content that is valid for the digest",
               "io.CopyN and io.ReadFull drop an error that a reader returns together with the bytes completing their request; scripted readers that attach an error to data and do not repeat it are excluded from the cases (attached EOF is included)",
-              "NewValidatedBufferFromReaderAt and nested casErrorHandlingBuffers as replacement buffers are not modelled; ToProto/CloneStream/WithTask not modelled",
-              "source Close() counts are not compared in C16"],
+              "NewValidatedBufferFromReaderAt is not modelled; ToProto/CloneStream/WithTask not modelled",
+              "the order of Done/Close calls relative to each other is not observed, only their number per handler / per source"],
 )
